@@ -334,3 +334,13 @@ var (
 	vfContext = vfTag("context").SetBit(vfTag("context"), 200, 1)
 	vfNonce   = big.NewInt(0x5eed1234abcd)
 )
+
+func vfJSONCopy(src, dst any) {
+	b, err := json.Marshal(src)
+	if err != nil {
+		panic(err)
+	}
+	if err := json.Unmarshal(b, dst); err != nil {
+		panic(err)
+	}
+}
